@@ -782,3 +782,12 @@ package pdf
 //@   assigns *
 //@   ensures r.rdpos <= old(r.rdpos) + max(old(budget.left), 0) + 1
 //@   ensures r.rdpos <= old(r.rdpos) + 67108864 + 2
+
+// ---- Copier.Redirect (C11): the redirection always takes effect, also for a reference that
+// ---- was copied before; later copies of referring objects point to the new target ----
+//@ func (*Copier).Redirect (c, origRef, newRef) ()
+//@   tags C11
+//@   requires c.trans != nil
+//@   assigns mapof(c.trans)
+//@   ensures (origRef in c.trans) && c.trans[origRef] == newRef
+//@   ensures forall k int :: k != origRef && old(k in c.trans) ==> (k in c.trans) && c.trans[k] == old(c.trans[k])
